@@ -10,3 +10,5 @@ import Refine.Props.C15
 import Refine.Model.Endian
 import Refine.Gen.Endian
 import Refine.Props.C08Endian
+import Refine.Lemmas.PartLemmas
+import Refine.Props.C07
